@@ -46,7 +46,13 @@ def conclude(mod, tier, reports, problems, insitu, wall):
             d["example"] = d["example"] or k["example"]
         if len(samples) < 3:
             samples += r["samples"][: 3 - len(samples)]
-        phases.update(r.get("phases") or {})
+        for pn, pv in (r.get("phases") or {}).items():
+            d = phases.setdefault(pn, {})
+            for k2, v2 in pv.items():
+                if isinstance(v2, (int, float)) and not isinstance(v2, bool):
+                    d[k2] = round(d.get(k2, 0) + v2, 2)
+                else:
+                    d.setdefault(k2, v2)
         if r.get("stopped"):
             stopped.append(f"shard {r['shard']}: {r['stopped']}")
         if r.get("dropped_violations"):
